@@ -1,6 +1,7 @@
 package sim
 
 import (
+	"strings"
 	"bytes"
 	"fmt"
 	"runtime"
@@ -46,6 +47,11 @@ type Sched struct {
 	Stalled  bool
 	NoHB     bool // race-detector friendly hand-off
 	Draining bool // yields are no-ops: let everything run to completion
+	Holds    []Hold
+	holdSeen []int // per hold: matching parks seen so far
+	holdLeft []int // per hold: decisions the task is still held for
+	HoldsHit int
+	Sticky   int  // per mille: probability that the task that ran last runs again (bursts: few preemptions, as in PCT)
 	byGID    map[uint64]*Task
 	mu       sync.Mutex
 	nreg     int
@@ -260,9 +266,10 @@ func bubbleQuiescent() bool {
 // nothing can make progress.
 func (s *Sched) Run() error {
 	s.waitRegistered()
-	var last *Task
+	var last, prev *Task
 	for s.Steps = 0; s.Steps < s.MaxSteps; s.Steps++ {
 		s.settle(last)
+		last0 := last
 		last = nil
 		var ready []*Task
 		alive := 0
@@ -279,6 +286,7 @@ func (s *Sched) Run() error {
 		if alive == 0 {
 			return nil
 		}
+		ready = s.applyHolds(ready, last0)
 		advances := s.Advances
 		if len(advances) > 0 && bubbleMutexWaiter() {
 			// a task waits for a mutex another (parked) task holds: only running a
@@ -290,7 +298,17 @@ func (s *Sched) Run() error {
 			s.Stalled = true
 			return fmt.Errorf("no task can run: %d alive, none parked, no clock advance offered", alive)
 		}
-		k := s.next(n)
+		k := -1
+		if s.Sticky > 0 && prev != nil {
+			for i, t := range ready {
+				if _, _, site := t.state(); t == prev && site != "op" && site != "app" && site != "start" && s.next(1000) < s.Sticky {
+					k = i
+				}
+			}
+		}
+		if k < 0 {
+			k = s.next(n)
+		}
 		if k < len(ready) {
 			t := ready[k]
 			_, _, site := t.state()
@@ -298,6 +316,7 @@ func (s *Sched) Run() error {
 			t.clearParked()
 			t.gate <- struct{}{}
 			last = t
+			prev = t
 		} else {
 			d := advances[k-len(ready)]
 			s.Trace = append(s.Trace, fmt.Sprintf("clock +%v", d))
@@ -311,6 +330,57 @@ func (s *Sched) Run() error {
 		}
 	}
 	return nil
+}
+
+// applyHolds removes held tasks from the ready set. justRan is the task that ran
+// in the previous decision (it has newly parked, if it is parked at all).
+func (s *Sched) applyHolds(ready []*Task, justRan *Task) []*Task {
+	if len(s.Holds) == 0 {
+		return ready
+	}
+	if s.holdSeen == nil {
+		s.holdSeen = make([]int, len(s.Holds))
+		s.holdLeft = make([]int, len(s.Holds))
+	}
+	if justRan != nil {
+		if p, d, site := justRan.state(); p && !d {
+			for i, h := range s.Holds {
+				if h.Task == justRan.ID && strings.HasPrefix(site, h.Site) {
+					s.holdSeen[i]++
+					if s.holdSeen[i] == h.Nth {
+						s.holdLeft[i] = h.Len
+						s.HoldsHit++
+						s.Trace = append(s.Trace, fmt.Sprintf("hold %s@%s for %d", justRan.Name, site, h.Len))
+					}
+				}
+			}
+		}
+	}
+	var out []*Task
+	for _, t := range ready {
+		held := false
+		for i, h := range s.Holds {
+			if h.Task == t.ID && s.holdLeft[i] > 0 {
+				held = true
+			}
+		}
+		if !held {
+			out = append(out, t)
+		}
+	}
+	if len(out) == 0 && len(ready) > 0 && (len(s.Advances) == 0 || bubbleMutexWaiter()) {
+		// nothing else can run: the delay ends
+		for i := range s.holdLeft {
+			s.holdLeft[i] = 0
+		}
+		return ready
+	}
+	for i := range s.holdLeft {
+		if s.holdLeft[i] > 0 {
+			s.holdLeft[i]--
+		}
+	}
+	return out
 }
 
 // Drain completes the run deterministically: the choice stream is exhausted, so
